@@ -64,4 +64,6 @@ mk("c17-n8-locate-missing-prov-ok", "pkg/action/install.go", [
      "if _, err := downloader.VerifyChart(abs, c.Keyring); err != nil && !os.IsNotExist(errors.Cause(err)) {")])
 mk("c17-n9-sig-over-plaintext", "pkg/provenance/sign.go", [
     ("bytes.NewBuffer(block.Bytes),", "bytes.NewBuffer(block.Plaintext),")])
+mk("c17-n10-dep-build-if-possible", "pkg/cmd/dependency_build.go", [
+    ("\t\t\t\tman.Verify = downloader.VerifyAlways", "\t\t\t\tman.Verify = downloader.VerifyIfPossible")])
 print("\n".join(sorted(f for f in os.listdir(OUT) if f.endswith(".diff"))))
